@@ -7,6 +7,7 @@
 import XotModel.Lemmas.FframeGeneralMove
 import XotModel.Lemmas.FframeGeneralMore
 import XotModel.Lemmas.FframeGeneralUnwrap
+import XotModel.Lemmas.FframeGeneralReplace
 
 namespace XotModel
 open HTree Spec PairAll
@@ -247,6 +248,9 @@ theorem frame_general {s : Store} {c : Forest.XCall} (inv : s.forest.Inv) (hw : 
         obtain ⟨t, hg⟩ := Forest.get_of_live (hla n (List.mem_singleton.2 rfl))
         exact (getFrame_wrap inv hok hg hl (ne_parent_of_not_mem_siteW hnw)
           (not_mem_handles_of_subtree hg hnm)).frameAt hl
+      | replace a b =>
+        simp only [Forest.XCall.writtenParents, List.mem_append, not_or] at hnw
+        exact (getFrame_replace inv hok hnw.1.1 hnw.1.2 hnm hnr).frameAt hl
       | elementUnwrap n =>
         obtain ⟨t, hg⟩ := Forest.get_of_live (hla n (List.mem_singleton.2 rfl))
         simp only [Forest.XCall.writtenParents, List.mem_cons, List.mem_append, not_or] at hnw
